@@ -30,7 +30,7 @@ theorem color_parse_err (s : List Char) (e : Exc) (h : UColor.parse P false s = 
     e = .colorParseError :=
   parseNorm_err P _ e h
 
-/-- with today's code the only other exception is the `ValueError` of `int()` -/
+/-- with rich 9.10.0 as found (`vErr = true`, before fix c34676b) the only other exception is the `ValueError` of `int()` -/
 theorem parseNorm_err_old (c : List Char) (e : Exc) (h : UColor.parseNorm P true c = .error e) :
     e = .colorParseError ∨ e = .valueError := by
   unfold UColor.parseNorm at h
